@@ -214,12 +214,30 @@ impl Mul<Arc> for Affine {
         let ellipse = self * Ellipse::new(arc.center, arc.radii, arc.x_rotation);
         let center = ellipse.center();
         let (radii, rotation) = ellipse.radii_and_rotation();
+        // Radii and rotation of the image ellipse are only determined up to the
+        // symmetries of an ellipse, so the start angle has to be measured anew, as
+        // the angle of the image of the start point in the frame of the image. A
+        // map that reverses orientation also reverses the direction of the sweep.
+        let start = self
+            * (arc.center + sample_ellipse(arc.radii, arc.x_rotation, arc.start_angle))
+            - center;
+        let (rot_sin, rot_cos) = rotation.sin_cos();
+        let local = Vec2::new(
+            rot_cos * start.x + rot_sin * start.y,
+            rot_cos * start.y - rot_sin * start.x,
+        );
+        let start_angle = (local.y * radii.x).atan2(local.x * radii.y);
+        let sweep_angle = if self.determinant() < 0.0 {
+            -arc.sweep_angle
+        } else {
+            arc.sweep_angle
+        };
         Arc {
             center,
             radii,
             x_rotation: rotation,
-            start_angle: arc.start_angle,
-            sweep_angle: arc.sweep_angle,
+            start_angle,
+            sweep_angle,
         }
     }
 }
